@@ -364,10 +364,20 @@ def normalise_tree(n):
         if r is not None:
             return r
     if k == "match" and n.get("src", "").startswith("Normal"):
+        r = control.merge_guarded_arms(n)
+        if r is not None:
+            return normalise_tree(r)
         r = control.match_bools(n) or control.match_guards(n) or control.entry_match(n) or control.match_ints(n)
         if r is not None:
             return normalise_tree(r)
+    if k == "for":
+        r = control.for_ok_else_break(n)
+        if r is not None:
+            return r
     if k == "mcall":
+        r = control.openoptions_create(n)
+        if r is not None:
+            return r
         r = control.for_each_to_for(n)
         if r is not None:
             return r
@@ -423,6 +433,7 @@ def normalise_tree(n):
         if control.beta_local_closures(n):
             n["stmts"] = normalise_tree(n["stmts"])
             n["expr"] = normalise_tree(n["expr"]) if n.get("expr") is not None else None
+        control.scalarise_struct_local(n)
         control.ref_alias(n)
         control.for_from_next_loops(n)
         _distribute_fn_select(n)
